@@ -278,7 +278,9 @@ def check(case):
         mode = dflt['mode']
         if mode == 'linear' and dflt['neg']:
             b = [-b[0], b[1]]
-        if b[0] != b[1]:
+        # a point mass is outside the domain; in log mode two distinct bounds may share their log10
+        bsp = [math.log10(v) for v in b] if mode == 'log' else b
+        if bsp[0] != bsp[1]:
             out.applies('default-prior')
             params = {'p': ('p', 'p', lambda: 1.0, lambda v: None, mode, True, b),
                       'q': ('q', 'q', lambda: 1.0, lambda v: None, mode, False, b)}
